@@ -73,7 +73,11 @@ def enumerate_states(tier, seed):
             d.update({n: 0 for n in gs.COORDS})
             d.update(oa=oa, ob=ob, pl=pl, u=u)
             states.append(d)
-    meta = {"bound_completed": ("deviation bound 2 over the full alphabets, all 100 ordered type pairs" if tier == "thorough" else
+    ps_ = proj_states(tier)
+    states += ps_
+    meta = {"bound_completed": ("projection kernels of both Nesterov modules: every ordered simplex of 2-4 distinct points of the lattice {-1,0,1}^3 "
+                                "(at %d offsets) that satisfies the GJK loop invariant (%d shards); " % (3 if tier == "thorough" else 2, len(ps_))) +
+                               ("deviation bound 2 over the full alphabets, all 100 ordered type pairs" if tier == "thorough" else
                                 "deviation bound 1 over the full alphabets + deviation bound 2 over reduced alphabets, all 100 ordered type pairs + dense Nesterov-primitives family (25 pairs x 256 orientation pairs x 12)"),
             "exhaustive": True}
     return states, meta
@@ -104,7 +108,134 @@ def _check_value(name, d, s, cls, viol):
                           {"d": d, "true_distance": tr["gap"], "tol": tol, "truth": _tr(tr)}))
 
 
+# ------------------------------------------------------------------ projection kernels of the two Nesterov modules
+#
+# project_line_origin / project_triangle_origin / project_tetra_to_origin are case analyses that assume the GJK loop
+# invariant: the previous simplex (all rows but the last) is the minimal face carrying the previous iterate v (origin
+# projects into its relative interior, v != 0) and the newest point A (last row) makes strict progress, v.A < v.v
+# (guaranteed by the convergence / Frank-Wolfe tests of the loop); for four points additionally the winding that
+# origin_to_triangle establishes (origin on the positive side of (C-B)x(D-B) for rows D, C, B).  Every ordered lattice simplex that satisfies the
+# invariant is enumerated; the kernel must return the exact minimum-norm point of the hull of all rows, and the reduced
+# simplex it writes back must consist of input points whose hull contains that point.
+
+from fractions import Fraction as _F
+
+_LAT = [tuple(v) for v in itertools.product((-1, 0, 1), repeat=3)]
+_SHIFT = [(_F(0), _F(0), _F(0)), (_F(1, 2), _F(1, 4), _F(1, 8)), (_F(3), _F(-2), _F(5, 2)), (_F(1, 2), _F(1, 2), _F(0)), (_F(1), _F(-1, 2), _F(3, 2))]
+
+
+def _lat_points(lat):
+    sh = _SHIFT[lat]
+    return [tuple(_F(c) + sh[i] for i, c in enumerate(p)) for p in _LAT]
+
+
+def proj_states(tier):
+    out = []
+    lats = (0, 1, 2) if tier == "thorough" else (0, 1)
+    for mod in ("generic", "primitives"):
+        for lat in lats:
+            out.append({"k": "proj", "mod": mod, "n": 2, "lat": lat, "p0": -1})
+            for i in range(27):
+                out.append({"k": "proj", "mod": mod, "n": 3, "lat": lat, "p0": i})
+            for i in range(27):
+                for j in range(27):
+                    if i != j and (tier == "thorough" or lat == 1 or mod == "generic"):
+                        out.append({"k": "proj", "mod": mod, "n": 4, "lat": lat, "p0": i, "p1": j})
+    return out
+
+
+def run_proj(desc):
+    from ..refmodel import simplex as rsx
+    if desc["mod"] == "generic":
+        from distance3d.gjk import _gjk_nesterov_accelerated as M
+    else:
+        from distance3d.gjk import _gjk_nesterov_accelerated_primitives as M
+    n = desc["n"]
+    fn = {2: M.project_line_origin, 3: M.project_triangle_origin, 4: M.project_tetra_to_origin}[n]
+    P = _lat_points(desc["lat"])
+    Pf = [tuple(float(c) for c in p) for p in P]
+    name = "%s.%s" % ("nesterov" if desc["mod"] == "generic" else "nesterov_primitives", fn.__name__ if hasattr(fn, "__name__") else "project_%d" % n)
+    viol, seen = [], set()
+    n_eval = n_pre = 0
+    fixed = [desc["p0"]] if n == 3 else [desc["p0"], desc["p1"]] if n == 4 else []
+    rest_idx = [i for i in range(27) if i not in fixed]
+    prev_tails = [()] if n == 3 else [(i,) for i in rest_idx] if n in (2, 4) else [()]
+    if n == 3:
+        prev_tails = [(i,) for i in rest_idx]
+    for tail in prev_tails:
+        prev_idx = tuple(fixed) + tuple(tail)
+        if len(prev_idx) != n - 1:
+            continue
+        prev = [P[i] for i in prev_idx]
+        lam = rsx.project_affine(prev)
+        if lam is None or any(l <= 0 for l in lam):
+            continue
+        v = tuple(sum(lam[i] * prev[i][c] for i in range(len(prev))) for c in range(3))
+        vv = rsx._dot(v, v)
+        if vv == 0:
+            continue
+        if n == 4:
+            # winding invariant established by origin_to_triangle: with rows (D, C, B) the origin lies on the positive side of (C-B) x (D-B)
+            D_, C_, B_ = prev
+            e1 = tuple(C_[i] - B_[i] for i in range(3))
+            e2 = tuple(D_[i] - B_[i] for i in range(3))
+            nrm = (e1[1] * e2[2] - e1[2] * e2[1], e1[2] * e2[0] - e1[0] * e2[2], e1[0] * e2[1] - e1[1] * e2[0])
+            if not -rsx._dot(nrm, B_) > 0:
+                continue
+        for ia in range(27):
+            if ia in prev_idx:
+                continue
+            a = P[ia]
+            if not rsx._dot(v, a) < vv:
+                continue
+            n_pre += 1
+            rows = list(prev_idx) + [ia]
+            S = np.zeros((4, 3))
+            for r, i in enumerate(rows):
+                S[r] = Pf[i]
+            S = np.ascontiguousarray(S)
+            ex = rsx.min_norm([P[i] for i in rows])
+            exn = float(ex[0]) ** 0.5
+            n_eval += 1
+            try:
+                ray, slen, inside = fn(S)
+            except Exception as e:  # noqa
+                sig = "exception:" + type(e).__name__
+                if sig not in seen:
+                    seen.add(sig)
+                    viol.append(_viol(name, sig, "kernel", {"rows": [Pf[i] for i in rows], "exc": repr(e)[:200]}))
+                continue
+            ray = np.asarray(ray, dtype=float)
+            rn = float(np.linalg.norm(ray))
+            bad = None
+            if not np.all(np.isfinite(ray)):
+                bad = "nonfinite"
+            elif ex[0] == 0:
+                if not (bool(inside) or rn <= 1e-12):
+                    bad = "origin_in_hull_not_recognised"
+            elif bool(inside):
+                bad = "reports_origin_inside_but_it_is_outside"
+            elif abs(rn - exn) > 1e-9 * max(1.0, exn):
+                bad = "not_the_minimum_norm_point:" + ("too_small" if rn < exn else "too_large")
+            else:
+                slen = int(slen)
+                sub = [tuple(float(c) for c in S[r]) for r in range(slen)]
+                if not (1 <= slen <= 4) or any(q not in [Pf[i] for i in rows] for q in sub):
+                    bad = "reduced_simplex_not_a_subset_of_the_input"
+                elif float(rsx.dist_sq_to_hull([tuple(_F(c) for c in q) for q in sub], tuple(_F(float(c)) for c in ray))) > 1e-20:
+                    bad = "reduced_simplex_does_not_contain_the_returned_point"
+            if bad is not None and bad not in seen:
+                seen.add(bad)
+                viol.append(_viol(name, bad, "kernel", {"rows_oldest_first": [Pf[i] for i in rows], "returned": ray, "returned_norm": rn,
+                                                        "exact_norm": exn, "simplex_len": int(slen), "inside": bool(inside)}))
+    return {"viol": viol, "n_eval": n_eval, "n_trans": n_eval, "traces": n_eval, "nontrivial_n": n_eval,
+            "hist": {"algo": {"kernel:" + name: n_eval}},
+            "sample": {"desc": desc, "simplices_satisfying_the_invariant": n_pre} if (n == 4 and desc.get("p0") == 0 and desc.get("p1") == 13) else None}
+
+
 def run_state(desc):
+    if desc.get("k") == "proj":
+        return run_proj(desc)
     from distance3d import gjk
     s = gs.build(desc)
     A, B = s["A"], s["B"]
